@@ -157,6 +157,19 @@ def run(analysis: Analysis, tier: str) -> RuleResult:
                         res.add("C15-R1", f"{q}[{summ['ext']}] / a failing save returns to the loop head", False, "mysensors/task.py", f"after {x} the path does not continue with the sleep and the next attempt: {seq}", r["witness"])
         res.add("C15-R1", f"{q}[{summ['ext']}] / a failing save returns to the loop head", saw_failed_continue, "mysensors/task.py", "a path with a caught save error continues with the sleep and the next iteration" if saw_failed_continue else "no path on which a save error is caught and the loop continues")
         res.add("C15-R2", f"{summ['sched']} / the save task's cancel is published to _cancel_save", summ["published"] and summ["cancel_ok"], "mysensors/task.py", "cancel_save cancels and awaits the task")
+    # R3: a failed attempt keeps the state marked unsaved
+    from . import c12, c14
+
+    before = len(res.obs)
+    c14.flag_writers(analysis, res)
+    for summ in common.pmap(analysis, c12.save_worker, [(e, (analysis.versions[-1], "serial", "sync")) for e in persist.EXTS]):
+        for r in summ["rows"]:
+            if r["kind"] == "raise":
+                clears = [e for e in r["raw"] if e["name"] == "store need_save" and e["val"] is False]
+                res.add("C15-R3", f"save_sensors[{summ['ext']}] / a failing save leaves the state marked unsaved", not clears, "mysensors/persistence.py", "need_save untouched on the failing path" if not clears else "the dirty flag is cleared although the save failed: the next attempts skip the save", r["witness"] if clears else None)
+    for o in res.obs[before:]:
+        o.rule = "C15-R3"
+    res.reindex()
     res.units = {"formats": list(persist.EXTS), "source_digest": analysis.p.digest(), "interpreter_steps": analysis.interp_steps}
     res.not_decided = ["the wall-clock period", "integrity of the old file under a concurrent insert (the dump raises RuntimeError, which is one of the modelled failure classes)"]
     res.assumptions = ["sa/extmodel.py raise sets of the file operations and of pickle.dump / json.dump (OSError, RuntimeError, PicklingError, TypeError, ValueError, AttributeError)"]
